@@ -252,7 +252,12 @@ class Real:
             if a['nosimult']:
                 kw['no_simult_in_out'] = True
             if a['maxhold'] >= 0:
-                kw['max_store_duration'] = a['maxhold'] * self.r
+                # a limit of m ticks allows stretches of exactly m ticks.  Where a tick is not exactly representable in main time units
+                # (an hour in days) summed step lengths and the limit differ by rounding, and "exactly at the limit" is not a question
+                # about EAO but about floating point: there the limit is realised half a tick higher, which admits the same stretches
+                # (all durations are whole ticks); under exactly representable units the limit itself is passed (knife edge included)
+                exact = float(self.r).is_integer() or float(1. / self.r).is_integer() and (int(round(1. / self.r)) & (int(round(1. / self.r)) - 1)) == 0
+                kw['max_store_duration'] = (a['maxhold'] if exact else a['maxhold'] + 0.5) * self.r
             return A.Storage(**kw)
         raise MachineryError('unknown asset kind ' + k)
 
